@@ -551,6 +551,7 @@ func cmdCheck(args []string) int {
 			"obligations_refuted_by_known_findings": knownRefuted,
 			"integer_mode":                          "bit-vector (machine arithmetic, wrap-around)",
 			"vacuity_covers_inconclusive":           coverIncon,
+			"witness_replays_of_fixed_findings":     witnessRuns,
 			"integer_lemmas_proved":                 mathOK,
 			"bounded_stand_ins":                     bounded,
 			"bounded_note":                          "bounded stand-ins execute the real code exhaustively up to the stated bound; they are NOT counted in obligations/discharged",
